@@ -348,8 +348,10 @@ def simulate(ctx, d, top, nets, src, tag):
   return True
 
 def feature_key(d, src, kind):
-  if 'blk-parent+field' in d.features: return f'C08:{kind}:same-block-parent-and-field-write'
-  if 'same-net-overlap' in d.features: return f'C08:{kind}:same-net-overlapping-slices'
+  """stable key for the one understood root cause (a block writing a struct and one of its fields makes the result of
+  writer resolution depend on set iteration order); everything else is keyed by the design text"""
+  if 'blk-parent+field' in d.features and kind in ('order-dependent', 'hashseed-dependent'):
+    return 'C08:same-block-parent-and-field-write'
   return f'C08:{kind}:{ec.dhash(src)}'
 
 def run(ctx):
@@ -396,6 +398,11 @@ def run(ctx):
             check_chains(ctx, d, r[2], src)
           simulate(ctx, d, r[2], r[1], src, f'variant {v}')
     if any(o[0][0] == 'ok' for o in outcomes): nok += 1
+    # a design built to be legal (port rules respected, one driver per bit, every net driven) must get its writers named
+    if mode == 'legal' and not d.features and outcomes[0][0][0] == 'err':
+      ctx.violation(f'C08:legal-rejected:{ec.dhash(outcomes[0][1])}',
+                    f'design {d.name} is legal by construction (every net has exactly one driven member, port rules respected) but elaboration raises {outcomes[0][0][1]}: {outcomes[0][2][2][:200]}',
+                    {'design_source': outcomes[0][1], 'exception': list(outcomes[0][2][1:3])})
     ctx.hist[f'levels:{d.levels}'] = ctx.hist.get(f'levels:{d.levels}', 0) + 1
     ctx.hist[f'connects:{"1-3" if nconn <= 3 else "4-10" if nconn <= 10 else "11-30"}'] = ctx.hist.get(f'connects:{"1-3" if nconn <= 3 else "4-10" if nconn <= 10 else "11-30"}', 0) + 1
     # all statement orders / orientations must give the same nets and the same writers (or the same error class)
